@@ -43,8 +43,8 @@ def build(ctx):
     x.s = (x.s[:m.start()] + '    match printer\n        .print_render_table(' + m.group(1) + '\n        )\n    {\n        Ok(v) => v,\n        Err(e) => {\n            write_errln!(err_w, "{e}");\n            return Err(());\n        }\n    };' + x.s[m.end():])
     x.note('R34', '`E.map_err(|e| { write_errln!(err_w, ..) })?` -> `match E { Ok(v) => v, Err(e) => { write_errln!(err_w, ..); return Err(()); } }` (a closure may not capture a &mut; the function returns Result<(), ()>)')
     x.replace('let _ = write!(err_w, "Errors:");', 'err_w.emit();', 'R3')
-    x.replace('Box::new(TextWriter::new(out_w))', 'Box::new(crate::xcx::text_writer(out_w))', 'H')
-    x.replace('Box::new(CsvWriter::new_to_writer(out_w))', 'Box::new(crate::xcx::csv_writer(out_w))', 'H')
+    x.replace('Box::new(TextWriter::new(out_w))', 'Box::new(crate::wrx::text_writer(out_w))', 'H')
+    x.replace('Box::new(CsvWriter::new_to_writer(out_w))', 'Box::new(crate::wrx::csv_writer(out_w))', 'H')
     x.replace('txs.into_iter().map(|t| t.into()).collect();', 'txs.into_iter().map(|t| t.into()).collect();', 'R32', required=False)
     use_x = ("use std::collections::HashSet;\nuse crate::regex::Regex;\nuse crate::rust_decimal::Decimal;\nuse crate::app::outfmt::model::AcbWriter;\n"
              "use crate::peripheral::broker::{Account, BrokerTx, questrade};\nuse crate::portfolio::Currency;\nuse crate::util::basic::SError;\nuse crate::util::rw::WriteHandle;\n")
@@ -58,7 +58,7 @@ def build(ctx):
     d = os.path.join(os.path.dirname(os.path.dirname(os.path.abspath(__file__))), 'shim')
     ustubs = open(os.path.join(d, 'util_stubs.rs')).read()
     extra_head = (open(os.path.join(d, 'csv_stubs.rs')).read() + open(os.path.join(d, 'office_stubs.rs')).read()
-                  + open(os.path.join(d, 'xc_stubs.rs')).read())
+                  + open(os.path.join(d, 'xc_stubs.rs')).read() + open(os.path.join(d, 'wr_stubs.rs')).read())
     return qtu.build(ctx, extra_per=mod('tx_export_convert_impl', use_x + x.text()), extra_util=ustubs,
                      extra_portfolio=mod('io', drvu.tx_csv_part(ctx)) + mod('render', rd.text()),
                      extra_top=fxu.fx_parts(ctx)['fx'] + app, extra_head=extra_head, macros=fxu.MACROS)
